@@ -34,6 +34,10 @@ CLAIMED['C18'] = dict(engine='E5', technique='Coq proof of the might_paint decis
     text='Proved (relative to the stated contract: simplify preserves the interior, a path without positive area encloses nothing, pen moves paint nothing): might_paint = False implies no fill and no stroke paint anywhere, after style declarations are applied; a visible stroke of non-zero width, a visible fill with positive area, and any engine failure give True; removing unpainted shapes leaves the painted point set of any shape list unchanged. remove_empty_subpaths is decided by the differential run and the exact-polygon judge.',
     note='Engine contract assumed and sampled; Shape.v is a hand model (typed fields, style as parsed declarations) validated by 1500+/30000 oracle-in-the-loop cases; one fix commit (subpath pruning of stroked paths).',
     design='§7 C18')
+CLAIMED['C19'] = dict(engine='E1/E5', technique='Coq proof over R of Rect.intersection/union regenerated from source; clip theorems relative to the engine contract; oracle-in-the-loop differential run on picosvg documents; exact-polygon and closed-form-extrema judges',
+    text='Proved: Rect.intersection returns the overlap exactly when it has positive area (else None), Rect.union is the least box; relative to the engine contract a dropped shape had nothing inside the viewBox and a kept shape is either untouched (entirely inside) or its interior is exactly subject /\\ viewBox /\\ bounds with paint, opacity and id kept and rule reset to nonzero. Tightness of Skia bounds, paint order and the group cleanup are decided by the differential run (identical outputs with the same engine) and the sample-point judge.',
+    note='Engine contract assumed (ops, bounds contain interior, rectangle path encloses the open rectangle); Clip.v hand model validated on documents with shapes inside/outside/across every side and corner.',
+    design='§7 C19')
 PENDING = {}
 
 def main():
